@@ -261,6 +261,7 @@ type taskStats struct {
 	sizePanic, legacy, notes             int
 	samples                              []reflect.Value // objects handed to Pretouch as samples
 	sampleSnaps                          []string
+	kept                                 []*keptEnc // C16: values this task encoded earlier, see c16later
 }
 
 func newTaskStats() *taskStats {
@@ -625,7 +626,7 @@ func (r *Runner) buildValue(op *OpSpec) *value {
 		v.w = model.NewW(model.WStruct)
 		return v
 	}
-	o := model.VOpt{Budget: op.Budget, Foreign: op.Foreign}
+	o := model.VOpt{Budget: op.Budget, Foreign: op.Foreign, Deep: op.Deep}
 	switch op.Arg {
 	case "zero":
 		v.w = model.NewW(model.WStruct)
@@ -729,6 +730,7 @@ func (r *Runner) execSize(op *OpSpec, st *Step) *Rec {
 }
 
 func (r *Runner) execEnc(op *OpSpec, st *Step) *Rec {
+	r.c16later(op, st)
 	v := r.sharedOrBuild(op, st)
 	arg := v.arg(op.ByValue)
 	s, pc, pt := callSize(arg)
